@@ -130,6 +130,9 @@ package resource_division
 //@   ensures [weightsLeSum] forall k in result0 :: result0[k] <= result1
 //@   ensures [keysUnsatisfied] forall k in result0 :: k in queues && !satisfied(queues[k], resourceName)
 //@   ensures [unsatisfiedHaveKey] result1 != 0.0 ==> forall k in queues :: !satisfied(queues[k], resourceName) ==> k in result0
+//@   # (helper "c09b") [formula] / [formulaClosed] / [sumClosedForm] are proved here but NOT exported (lemma / hint): their nonlinear bodies
+//@   # (w/T + k*(w/T - u)) in the caller's context made the sum steps of divideUpToFairShare undecided; no caller needs them.
+//@   # [formulaClosed] names the T of [formula]: it is totalUnsatW (the fold of getTotalWeightsForUnsatisfied).
 //@   lemma [formula] result1 != 0.0 ==> exists T real :: T > 0.0 && (forall k in queues :: !satisfied(queues[k], resourceName) ==> weight(queues[k], resourceName) <= T) && (forall k in result0 :: result0[k] == shareW(queues[k], resourceName, T, kValue))
 //@   ensures [sumOfWeights] totalUnsatW(queues, resourceName) != 0.0 ==> result1 == swSum(queues, result0)
 //@   ensures [zeroWeightZeroShare] kValue >= 0.0 && usagesNonNeg(queues, resourceName) ==> forall k in queues :: weight(queues[k], resourceName) == 0.0 ==> result0[k] == 0.0
